@@ -45,3 +45,11 @@ PROPS["C07"] = _tower("conservation proved in differential form per primitive (s
 PROPS["C07"]["components"] = ["tower", "slots"]
 PROPS["C08"] = _tower("signature scheme abstract here (C17); byte layouts in C16.")
 PROPS["C09"] = _tower("u32 wrap-around of the two unchecked additions excluded by precondition.")
+
+PROPS["C20"] = {
+    "components": ["config"],
+    "trusted_base": TB_COMMON + ["the translator of config.rs (tools/extract.py): field list, defaults, patch rules, auth and network tables are regenerated on every run; the reading given to the four patch rules is hand-written and validated by the exhaustive correspondence run",
+                                 "modelled, not verified: toml/serde deserialisation, structopt parsing"],
+    "assumptions": ["a configuration file that does not parse as TOML is treated as absent (from_file falls back to defaults, as the source does)"],
+    "partial": "",
+}
